@@ -2733,7 +2733,12 @@ class Engine:
                 if isinstance(s, (ast.For, ast.While)):
                     self.loop_ordinals.setdefault(id(s), n)
                     n += 1
-                for fld in ('body', 'orelse', 'finalbody'):
+                flds = ('body', 'orelse', 'finalbody')
+                if isinstance(s, ast.If) and isinstance(s.test, ast.UnaryOp) and isinstance(s.test.op, ast.Not):
+                    # `if not t: B else: A` is numbered like `if t: A else: B`: loop contracts are keyed by ordinal and
+                    # exchanging the branches under a negated test must not exchange the contracts
+                    flds = ('orelse', 'body')
+                for fld in flds:
                     visit(getattr(s, fld, []) or [])
                 for h in getattr(s, 'handlers', []) or []:
                     visit(h.body)
